@@ -312,12 +312,15 @@ pub struct RuleGen {
     pub probes: u32,
     /// probability (percent) of a poisoned leaf
     pub poison: u32,
+    /// probability (percent) that an operand is replaced by a textual copy of a sibling operand
+    /// (common-subexpression "optimisations" only show on duplicated subtrees that log or fail)
+    pub dup: u32,
     pub ops: Vec<&'static str>,
 }
 
 impl RuleGen {
     pub fn new() -> RuleGen {
-        RuleGen { probe: 0, probes: 5, poison: 3, ops: all_ops() }
+        RuleGen { probe: 0, probes: 5, poison: 3, dup: 8, ops: all_ops() }
     }
     pub fn uprobe(&mut self) -> Value {
         self.probe += 1;
@@ -338,7 +341,13 @@ impl RuleGen {
         if r.chance(2, 5) {
             let p = rand_path(r, d);
             if r.chance(1, 5) {
-                json!({"var": [p, rand_scalar(r)]})
+                // the default: mostly a constant, sometimes an expression that logs or fails
+                let dflt = match r.below(10) {
+                    0 | 1 => self.uprobe(),
+                    2 => json!({"/": [1]}),
+                    _ => rand_scalar(r),
+                };
+                json!({"var": [p, dflt]})
             } else {
                 json!({ "var": p })
             }
@@ -419,6 +428,13 @@ impl RuleGen {
                 for _ in 0..n {
                     args.push(self.rule(r, d, depth - 1, width));
                 }
+            }
+        }
+        if args.len() >= 2 && (r.below(100) as u32) < self.dup {
+            let from = r.below(args.len());
+            let to = if r.chance(1, 2) { (from + 1) % args.len() } else { r.below(args.len()) };
+            if from != to {
+                args[to] = args[from].clone();
             }
         }
         let mut m = Map::new();
